@@ -35,7 +35,7 @@ claimed.update({
  "C11": ("exploration", "5/C11", "whole-node simulation with 1..6 stable channels of all seven endpoint kinds + churning peers, a flaky custom link, 1..4 concurrent writers issuing the six Write* calls (stable, churning, closed, foreign (second real node) and nil targets), flow control; fan-out model over wire logs: exactly once, isolation, per-writer FIFO, whole frames, header provenance",
          "samples of the schedule space; flow control (<= 40 outstanding items per channel) is part of the scenario",
          "deterministic simulation: cooperative scheduler over an instrumented build, executable fan-out model"),
- "C12": ("exploration", "5/C12", "Close issued at a drawn instant of drawn situations over all 7 endpoint kinds (consumer running/stopped/never started, peers not reading, links unplugged while the writer is stuck, hanging/refused dials, failing and slow serial opens, disconnecting peers, concurrent writers through and after the close) and Initialize failing (or given a doubtful configuration) at a drawn endpoint; oracles: Close returns within max(write, read timeout)+1 s, no live node task, nothing bound/open, custom transport closed once, Events() closed, writes return",
+ "C12": ("exploration", "5/C12", "Close issued at a drawn instant of drawn situations over all 7 endpoint kinds (consumer running/stopped/never started, peers not reading, links unplugged while the writer is stuck, hanging/refused dials, failing and slow serial opens, disconnecting peers, concurrent writers through and after the close) and Initialize failing (or given a doubtful configuration) at a drawn endpoint; oracles: Close returns within max(write, read timeout)+1 s, no goroutine of the node still unstarted at the instant it returns (newborn-last scheduling in a third of the runs), no live node task afterwards, nothing bound/open, custom transport closed once, Events() closed, writes return",
          "samples of the schedule/fault/close-point space; leak detection relies on the engine knowing every goroutine the instrumented package starts and on the simulated network's bookkeeping",
          "deterministic simulation with fault injection: close-point sampling under the cooperative scheduler"),
  "C13": ("exploration", "5/C13", "sick channels (transport Write blocking forever / until a drawn instant / until the write deadline, failing once / permanently from the k-th call with a bare error or a non-timeout net.Error) and unencodable items at drawn positions; healthy channels flow-controlled and checked for exactly-once, failing channels for closed-or-delivering by write attempts, stalled channels for the 64+2+writers backlog bound, events from every channel",
